@@ -365,7 +365,14 @@ func allTimerSubs() []string {
 	return []string{"lower", "upper", "count", "count_ps", "mean", "median", "std", "sum", "sum_squares"}
 }
 
-const gsdSummary = "timer.gsdhist-summary"
+// gsdClass is the class of a forbidden summary statistic of a gsd_histogram timer; the bucket-limit-0 case (the
+// timer reports nothing at all) has its own class.
+func gsdClass(s *series) string {
+	if len(s.histF) == 0 {
+		return "timer.gsdhist-limit0-summary"
+	}
+	return "timer.gsdhist-summary"
+}
 
 // leTag is the bucket tag of a histogram timer as graphite, datadog, cloudwatch and stdout spell it.
 func leTag(bound float64) string { return "le:" + fmtBound(bound) }
